@@ -8,10 +8,11 @@
 const char* vh_property = "C03";
 
 struct fam { const char* alpha; int k; int L; int protein; int ntypes; };
-static const struct fam FQ[] = {{"AC", 3, 3, 0, 4}, {"AC", 4, 2, 0, 2}, {"AC", 5, 1, 0, 1}, {"LK", 3, 3, 1, 3}, {"LK", 4, 2, 1, 1}};
-static const struct fam FT[] = {{"AC", 3, 4, 0, 4}, {"ACG", 3, 3, 0, 2}, {"AC", 4, 3, 0, 2}, {"AC", 5, 2, 0, 1}, {"LK", 3, 4, 1, 3}, {"LKW", 4, 2, 1, 1}, {"LK", 5, 2, 1, 1}};
+static const struct fam FQ[] = {{"AC", 2, 6, 0, 4}, {"LK", 2, 5, 1, 3}, {"AC", 3, 3, 0, 4}, {"AC", 4, 2, 0, 2}, {"AC", 5, 1, 0, 1}, {"LK", 3, 3, 1, 3}, {"LK", 4, 2, 1, 1}};
+static const struct fam FT[] = {{"ACG", 2, 6, 0, 4}, {"LKW", 2, 5, 1, 3}, {"AC", 3, 4, 0, 4}, {"ACG", 3, 3, 0, 2}, {"AC", 4, 3, 0, 2}, {"AC", 5, 2, 0, 1}, {"LK", 3, 4, 1, 3}, {"LKW", 4, 2, 1, 1}, {"LK", 5, 2, 1, 1}};
 static const int DT[] = {KALIGN_TYPE_UNDEFINED, KALIGN_TYPE_DNA, KALIGN_TYPE_DNA_INTERNAL, KALIGN_TYPE_RNA};
 static const int PT[] = {KALIGN_TYPE_UNDEFINED, KALIGN_TYPE_PROTEIN, KALIGN_TYPE_PROTEIN_DIVERGENT};
+#define NNAMING 4       /* s0,s1.. | z0,y1.. (reverse lexicographic) | "Q7Z5 isoform <j>" (blank, common first word) | n, nn, nnn (each a prefix of the next) */
 #define NBIG 4  /* big sets: sched inputs 11 (104 dna), 12 (130 protein), each with two namings */
 
 static const struct fam* fams(int tier, int* n)
@@ -22,7 +23,7 @@ static const struct fam* fams(int tier, int* n)
 static uint64_t ipow(uint64_t b, int e) { uint64_t r = 1; while(e-- > 0){ r *= b; } return r; }
 static uint64_t fsize(const struct fam* f)
 {
-        return ipow(kx_count_strings((int)strlen(f->alpha), 1, f->L), f->k) * (uint64_t)f->ntypes * 2;
+        return ipow(kx_count_strings((int)strlen(f->alpha), 1, f->L), f->k) * (uint64_t)f->ntypes * NNAMING;
 }
 
 /* big sets are split into slices so that the 16 shards share them: slice = block of the permutation family */
@@ -50,16 +51,20 @@ static void decode(uint64_t id, int tier, struct ocase* c)
                 uint64_t sz = fsize(&F[i]);
                 if(id < sz){
                         uint64_t S = kx_count_strings((int)strlen(F[i].alpha), 1, F[i].L);
-                        int naming = (int)(id % 2);
-                        char buf[16], nm[16];
-                        id /= 2;
+                        int naming = (int)(id % NNAMING);
+                        char buf[16], nm[32];
+                        id /= NNAMING;
                         c->type = F[i].protein ? PT[id % (uint64_t)F[i].ntypes] : DT[id % (uint64_t)F[i].ntypes];
                         id /= (uint64_t)F[i].ntypes;
                         for(j = 0; j < F[i].k; j++){
                                 kx_nth_string(id % S, F[i].alpha, 1, F[i].L, buf);
                                 id /= S;
-                                if(naming){
+                                if(naming == 1){
                                         snprintf(nm, sizeof nm, "%c%d", 'z' - j, j);
+                                }else if(naming == 2){
+                                        snprintf(nm, sizeof nm, "Q7Z5 isoform %d", F[i].k - j);
+                                }else if(naming == 3){
+                                        snprintf(nm, sizeof nm, "%.*s", j + 1, "nnnnnnnn");
                                 }else{
                                         snprintf(nm, sizeof nm, "s%d", j);
                                 }
